@@ -200,7 +200,17 @@ class SysAdapter(Adapter):
                         p = s.createPRISM()
                         res = None
                     else:
-                        p = s.solve(options={'disp': False, 'maxiter': 400})
+                        # System.solve forwards guess / method / options to PRISM.solve: with the default arguments, or with the
+                        # (equivalent) all-zero guess handed over explicitly, by keyword or by position - a warm start is still a
+                        # solve of a SNAPSHOT
+                        how = (self.coin(w, 'solve', 0), self.coin(w, 'solve', 1))
+                        if how[0] == 0:
+                            p = s.solve(options={'disp': False, 'maxiter': 400})
+                        else:
+                            g0 = np.zeros(len(T) * len(T) * int(s.domain.length))
+                            p = s.solve(g0, options={'disp': False, 'maxiter': 400}) if how[1] else s.solve(guess=g0, options={'disp': False, 'maxiter': 400})
+                            if np.any(g0):
+                                obs['guess_modified'] = True
                         self.solves += 1
                         res = p.minimize_result
                     w['prisms'].append(p)
@@ -245,6 +255,8 @@ class SysAdapter(Adapter):
                                                       'message': obs.get('message', ''), 'missing': label.get('missing')}))
         if obs.get('system_untouched') is False:
             out.append(('SystemUntouchedByCreateSolve', {'what': 'the System differs (deep comparison) after %s' % label['act']}))
+        if obs.get('guess_modified'):
+            out.append(('SystemUntouchedByCreateSolve', {'what': "the caller's guess array was modified by System.solve"}))
         if 'warns' in label and obs['raises'] == '' and sorted(label['warns']) != obs.get('warns'):
             out.append(('WarnsIffOffGrid', {'expected': sorted(label['warns']), 'observed': obs.get('warns'),
                                             'what': 'check() warns about exactly the diameters and contact distances that are not grid points'}))
